@@ -46,6 +46,7 @@ Op(o) == [op |-> o, k |-> 0]
 Rd(k) == [op |-> "RD", k |-> k]
 Rl(k) == [op |-> "RL", k |-> k]
 Ja(k) == [op |-> "JA", k |-> k]
+Jar(k, r) == [op |-> "JA", k |-> k, r |-> r]     \* the joined reader is read with Read calls of r bytes
 Rdo(k) == [op |-> "RDO", k |-> k]
 Swd(k) == [op |-> "SWD", k |-> k]
 
